@@ -291,6 +291,17 @@ def case_size(case):
 
 
 def run_property(prop_id, mod, tier, seed, only=None, jobs=None):
+    import shutil
+    import tempfile
+    run_tmp = tempfile.mkdtemp(prefix='vf_run_')
+    os.environ['VF_TMP'] = run_tmp
+    try:
+        return _run_property(prop_id, mod, tier, seed, only, jobs)
+    finally:
+        shutil.rmtree(run_tmp, ignore_errors=True)
+
+
+def _run_property(prop_id, mod, tier, seed, only=None, jobs=None):
     t0 = time.time()
     bitstring_module()
     subs = [s for s in mod.SUBCHECKS if only is None or s.name in only or s.name.split('.', 1)[1] in only]
@@ -460,6 +471,17 @@ def run_property(prop_id, mod, tier, seed, only=None, jobs=None):
 
 
 def replay(prop_id, mod, path):
+    import shutil
+    import tempfile
+    run_tmp = tempfile.mkdtemp(prefix='vf_run_')
+    os.environ['VF_TMP'] = run_tmp
+    try:
+        return _replay(prop_id, mod, path)
+    finally:
+        shutil.rmtree(run_tmp, ignore_errors=True)
+
+
+def _replay(prop_id, mod, path):
     bitstring_module()
     with open(path) as fh:
         w = json.load(fh)
